@@ -435,3 +435,84 @@ func VerifC02UpdateAnchored() {
 	verifAssert(target.Anchor == name, "C02/compound-assignment-dropped-the-anchor-of-its-target "+label)
 	verifCover("C02/anchored/end")
 }
+
+// VerifC02UpdateCreatesPerNode: an update applied to several current nodes creates what is missing in EACH of them:
+// `.a[] | (.n += K)` over elements of which any subset lacks `n` (or the map that holds it) leaves every element
+// with n = old + K (old = nothing counts as null, null + K = K), and reading it back gives that.
+func VerifC02UpdateCreatesPerNode() {
+	forms := []string{".a[] | (.n += 7770001)", ".a[] | (.m.n += 7770001)", ".a[] | (.n = 7770001)", ".a[] | (.n |= 7770001)", ".a[].n += 7770001", ".a[] | (.n -= 7770001)", ".a[] | (.l[1] += 7770001)", ".a[] | (.n *= 7770001)", "(.a[] | .n) += 7770001"}
+	form := verifChoice("form", len(forms))
+	k := verifStrN("k", 1, vDigits())
+	kn, _ := parseInt64ForHarness(k)
+	var present [3]bool
+	var xs [3]string
+	var xn [3]int64
+	seq := vSeq()
+	n := 2 + verifChoice("elements", 2)
+	for i := 0; i < n; i++ {
+		present[i] = verifChoice("has"+verifItoa(int64(i)), 2) == 1
+		xs[i] = verifStrN("x"+verifItoa(int64(i)), 1, vDigits())
+		xn[i], _ = parseInt64ForHarness(xs[i])
+		el := vMap(vStr("o"), vInt("9"))
+		if present[i] {
+			switch form {
+			case 1:
+				el = vMap(vStr("o"), vInt("9"), vStr("m"), vMap(vStr("n"), vInt(xs[i])))
+			case 6:
+				el = vMap(vStr("o"), vInt("9"), vStr("l"), vSeq(vInt("0"), vInt(xs[i])))
+			default:
+				el = vMap(vStr("o"), vInt("9"), vStr("n"), vInt(xs[i]))
+			}
+		}
+		seq.Content = append(seq.Content, el)
+	}
+	doc := vDoc(vMap(vStr("a"), seq))
+	e := vParse(forms[form])
+	vSubst(e, "7770001", "!!int", k)
+	_, err := vEval(e, doc)
+	label := "form=" + forms[form]
+	if (form == 5 || form == 7) && !(present[0] && present[1] && (n == 2 || present[2])) {
+		// null - K and null * K are not numbers: an error or a created null are both acceptable; the elements that have n
+		// are not examined either (the statement covers updates that are defined)
+		verifCover("C02/update-creates/undefined")
+		return
+	}
+	verifAssert(err == nil, "C02/update-error "+label)
+	if err != nil {
+		return
+	}
+	for i := 0; i < n; i++ {
+		var want int64
+		switch form {
+		case 2, 3:
+			want = kn
+		case 5:
+			want = xn[i] - kn
+		case 7:
+			want = xn[i] * kn
+		default:
+			want = kn
+			if present[i] {
+				want = xn[i] + kn
+			}
+		}
+		read := ".a[" + verifItoa(int64(i)) + "].n"
+		if form == 1 {
+			read = ".a[" + verifItoa(int64(i)) + "].m.n"
+		} else if form == 6 {
+			read = ".a[" + verifItoa(int64(i)) + "].l[1]"
+		}
+		res, rerr := c03EvalReadOnly(vParse(read), doc)
+		ok := rerr == nil && res.Len() == 1
+		verifAssert(ok, "C02/updated-path-not-there-in-every-node "+label)
+		if !ok {
+			continue
+		}
+		got, okp := parseInt64ForHarness(res.Front().Value.(*CandidateNode).Value)
+		verifObserve("n"+verifItoa(int64(i)), got)
+		verifAssert(okp && got == want, "C02/update-per-node-value "+label)
+		o, _ := c03EvalReadOnly(vParse(".a["+verifItoa(int64(i))+"].o"), doc)
+		verifAssert(o != nil && o.Len() == 1 && o.Front().Value.(*CandidateNode).Value == "9", "C02/update-frame "+label)
+	}
+	verifCover("C02/update-creates/end")
+}
